@@ -102,7 +102,7 @@ __CPROVER_ensures(/* the result of the namespace axis is flagged document-ordere
     jobs=[Job('findNamespace', 'h_findNamespace', enforce=['findNamespace'],
               replace=['xv_arg_len', 'xv_node_type', 'xv_owner_document', 'xv_attributes', 'xv_attr_count', 'xv_attr_item', 'xv_node_name', 'xv_node_value', 'xv_is_ns_decl', 'xv_test',
                        'xv_result_name', 'xv_parent', 'xv_add_node', 'xv_reverse', 'xv_set_document_order'],
-              loop_contracts=True, reach='all', timeout=600, min_obligations=10)],
+              loop_contracts=True, reach='all', timeout=1500, min_obligations=10)],
     mutants=[
         Mutant('empty_default_does_not_shadow', XP, r'foundNSMatch = defaultNSFound \|\|\s*\(theNodeValue == DOMServices::s_emptyString\);\s*defaultNSFound = true;', 'if (theNodeValue == DOMServices::s_emptyString)\n                                {\n                                    foundNSMatch = true;\n                                }\n                                else\n                                {\n                                    foundNSMatch = defaultNSFound;\n                                    defaultNSFound = true;\n                                }', expect=None),
         Mutant('attributes_scanned_forward', XP, r'XalanSize_t    nAttrs = attributeList->getLength\(\);\s*while \(nAttrs > 0\)\s*\{\s*--nAttrs;\s*XalanNode\* const    attr = attributeList->item\(nAttrs\);',
